@@ -190,6 +190,14 @@ def live_state(dirs):
     return tuple(out)
 
 
+def lasting_state(dirs):
+    """Keys, values and tags of the items that never expire (comparable
+    between runs in which different amounts of virtual time passed)."""
+    return tuple(tuple((repr(k), repr(v), t)
+                       for k, v, e, t in Snapshot(d).contents() if e is None)
+                 for d in dirs)
+
+
 def rows(dirs):
     return sum(len(Snapshot(d).rows) for d in dirs)
 
@@ -237,7 +245,8 @@ def one_run(kind, settings, label, init, fn, retry, hook_args):
                 'unchanged': before == after or (
                     before_live == live_state(dirs)
                     and not [x for d in dirs for x in Snapshot(d).audit()]),
-                'after': after, 'log': hook.log, 'rows_before': nrows,
+                'after': after, 'lasting': lasting_state(dirs),
+                'log': hook.log, 'rows_before': nrows,
                 'rows_after': rows(dirs), 'begins': hook.begins}
     finally:
         if hook is not None:
@@ -360,7 +369,7 @@ def case_unit(unit):
             # sharded bulk removals keep trying a busy shard whatever the
             # retry flag; 'slow' lets each failed attempt take 31 virtual
             # seconds (a shard that stays locked for more than a minute)
-            slow = [('release', None, 3, 50, 31)] if sharded_bulk else []
+            slow = [('release', None, 3, 50, 31)]
             for sc in [('release', None, 1), ('release', None, 2)] + slow:
                 k = sc[2]
                 r = one_run(kind, settings, label, init, fn, retry, sc)
@@ -372,7 +381,9 @@ def case_unit(unit):
                     bad('retry-wrong-result', sc, 'after the lock was released '
                         'the call returned %r, without contention %r'
                         % (r['result'], base['result']))
-                elif r['after'] != base['after']:
+                elif (r['lasting'] != base['lasting'] if len(sc) > 4
+                      else r['after'] != base['after']):
+                    # (when the wait took virtual time, time stamps differ)
                     bad('retry-wrong-state', sc, 'final state differs from '
                         'the uncontended run')
     part['samples'].append({'kind': kind, 'op': label,
@@ -439,17 +450,88 @@ def plan(tier):
     return units
 
 
+# ---------------------------------------------------------------- SCHED ---
+# A call that gives up with Timeout has no effect on anybody else either: in
+# particular not on another thread of the same Cache object that is inside a
+# transaction.  Explored over all interleavings; the first (or second) busy
+# answer to the designated client is delivered as a timeout instead of
+# letting it wait.
+
+def sched_plan(tier):
+    S = lambda k, v: ('set', k, v, None, None)    # noqa: E731
+    TB, TBF = ('$T', 12), ('$B', 12)
+    block = ('block', (S('a', TB), S('b', 2)), None)
+    blockn = ('block', (('incr', 'n', 1, 0), ('incr', 'm', 1, 0)), None)
+    units = []
+    for mode in ('shared', 'own'):
+        for victim in ([S('b', 9)], [('incr', 'n', 1, 0)], [('pop', 'a', 0)],
+                       [S('c', TBF)], [('delete', 'a')]):
+            for nth in (0, 1):
+                units.append(('sched', [[block], victim], 'file', mode,
+                              {(2, nth): 'timeout'}))
+        units.append(('sched', [[blockn], [('incr', 'n', 1, 0)]], 'absent',
+                      mode, {(2, 0): 'timeout'}))
+        units.append(('sched', [[S('a', TB), S('b', 1)], [S('a', 5)]], 'file',
+                      mode, {(2, 0): 'timeout'}))
+        if tier == 'thorough':
+            units.append(('sched', [[block], [S('b', 9)], [('get', 'b', 0)]],
+                          'file', mode, {(2, 0): 'timeout'}))
+    return units
+
+
+def sched_unit(unit):
+    from .. import sched
+    from ..scen import CacheScenario
+    from . import c05
+    _, programs, init, mode, answers = unit
+
+    class TimeoutScenario(CacheScenario):
+        busy_answers = answers
+
+        def ops(self, ex):
+            # a call that raised Timeout must be explained as not having
+            # happened at all
+            return [o for o in CacheScenario.ops(self, ex)
+                    if o.result != Raises('Timeout')]
+
+        def outcome(self, ex):
+            return repr([[repr(r[1])[:30] for r in c.results]
+                         for c in ex.clients])
+
+    part = sched.explore(
+        lambda: TimeoutScenario(programs, c05.INITS[init], mode,
+                                {'disk_min_file_size': 8}),
+        bound=2 if len(programs) > 2 else None, por=True,
+        time_cap=1500 if len(programs) > 2 else 150)
+    part['label'] = 'sched/timeout'
+    return part
+
+
+def dispatch(unit):
+    if unit[0] == 'sched':
+        return sched_unit(unit)
+    return case_unit(unit)
+
+
 def main(tier, seed):
     rep = run.Report('C14', tier, seed, TECHNIQUE)
-    units = run.shuffled(plan(tier), seed)
-    for part in run.pmap(case_unit, units):
+    units = run.shuffled(plan(tier) + sched_plan(tier), seed)
+    for part in run.pmap(dispatch, units):
         rep.merge(part, part.get('label'))
     rep.bounds = {
         'cases': len(units),
         'scenarios': 'lock held before the call; lock taken at every event '
                      'position of the call; lock released before BEGIN '
-                     'attempt 1 and 2 of a retrying call; retry on/off',
+                     'attempt 1 and 2 of a retrying call, and before attempt '
+                     '3 when each failed attempt takes 31 virtual seconds (a '
+                     'lock held for more than a minute); retry on/off',
         'bulk': '%d items (two pages) for clear/evict/expire/cull' % N_BULK,
+        'sched': 'all interleavings of a transaction block (or two writes) '
+                 'of one client with a write of another whose first or '
+                 'second busy answer is delivered as Timeout, separate and '
+                 'shared Cache objects: the timed-out call must be '
+                 'explainable as not having happened and everybody else '
+                 'unaffected',
     }
     rep.assumptions = [
         'the contender is a second SQLite connection in the same thread; '
